@@ -83,6 +83,25 @@ func syncMapModels(name string) modelFn {
 			e.smDelete(st, args[0], args[1])
 			return Val{fn.Signature.Results(), nil}, true
 		}
+	case "Range":
+		// The callback is verified as a function of its own (closure contract). Here: whatever it does to the variables
+		// it captured has happened an unknown number of times; the map itself is unchanged (the callbacks in this code
+		// base do not store into the map they iterate).
+		return func(e *Engine, st *State, fr *Frame, fn *ssa.Function, args []Val, in ssa.Instruction) (Val, bool) {
+			fi, ok := funcTab[args[1].t()]
+			if !ok {
+				return Val{}, false
+			}
+			for _, b := range fi.Bind {
+				if isPointer(b.T) {
+					st.havocAt(ptrInfo(b), deref(b.T), "range")
+					nv := st.loadAt(ptrInfo(b), deref(b.T))
+					st.assumeSliceWF(nv)
+				}
+			}
+			st.note("sync.Map.Range: callback effects on captured variables havoc'd; callback verified separately")
+			return Val{fn.Signature.Results(), nil}, true
+		}
 	case "LoadOrStore":
 		return func(e *Engine, st *State, fr *Frame, fn *ssa.Function, args []Val, in ssa.Instruction) (Val, bool) {
 			old, has := e.smLoad(st, args[0], args[1])
